@@ -428,6 +428,7 @@ def plan_for(prop, tier, seed, replay_file=None):
         # on annotations: with them the open finding on reindex leads to cyclic targets and the library recurses for minutes)
         rt = [RT('reindex', 'memory')]
         re_ = [gen_job('reindex_p5', 'remove', 5, depth=2 if tier == 'quick' else 3, style=seed % 5, reads=['lookup'], per_state=False, roundtrips=rt, **big),
+               gen_job('reindex_p17', 'remove', 17, depth=2 if tier == 'quick' else 3, style=(seed + 1) % 5, reads=['lookup'], per_state=False, roundtrips=rt, sample_mod=1 if tier == 'quick' else 5, MaxAnns=12, MaxRes=2),
                gen_job('reindex_p10', 'remove', 10, depth=2, style=(seed + 3) % 5, reads=['lookup'], per_state=False, roundtrips=rt, MaxAnns=10, MaxRes=3, MaxData=8, MaxSets=2, MaxKeys=4)]
         # identifiers that begin like temporary identifiers
         re_.append(gen_job('tempish_p15', 'tempish', 15, depth=1 if tier == 'quick' else 2, style=(seed + 1) % 5, reads=['lookup'], per_state=False,
